@@ -661,7 +661,12 @@ pub mod faults {
     /// "tornm1" (sticky, and a failing write leaves one byte / the first half / all but the last byte
     /// of its buffer in the file), "torn_once" (that call only; if it is a write it leaves the first
     /// half of its buffer in the file)
-    pub fn run(ops: &[DbOp], keys: &[Vec<u8>], fail_at: Option<usize>, mode: &str, reuse: bool) -> Outcome {
+    /// checks: "further" = after the clean reopen one more key is written and the database is
+    /// reopened again (C02 last sentence, C16); "dircheck" = the directory is then compared with the
+    /// current version (C11 second sentence)
+    pub fn run(ops: &[DbOp], keys: &[Vec<u8>], fail_at: Option<usize>, mode: &str, reuse: bool, checks: &[String]) -> Outcome {
+        let further = checks.iter().any(|c| c == "further" || c == "dircheck");
+        let dircheck = checks.iter().any(|c| c == "dircheck");
         let ctl = Arc::new(FaultCtl { count: AtomicUsize::new(0), fail_at: AtomicUsize::new(fail_at.unwrap_or(usize::MAX)), sticky: AtomicBool::new(mode != "transient" && mode != "torn_once"), torn: AtomicUsize::new(match mode { "torn1" => 1, "torn" | "torn_once" => 2, "tornm1" => 3, _ => 0 }), fired: Mutex::new(vec![]) });
         let mut options = DbOptions::with_memory_env();
         options.create_if_missing = true;
@@ -728,7 +733,7 @@ pub mod faults {
                 if !overflow { check_reads(&d, keys, &worlds, false, "after the fault is gone and the database is reopened", &mut bad, &mut trace); }
                 // the recovered database is usable: a further write succeeds and survives a clean reopen
                 let fresh = (b"~fresh".to_vec(), Some(b"1".to_vec()));
-                match d.apply(WriteOptions::default(), make_batch(&[fresh.clone()])) {
+                if further { match d.apply(WriteOptions::default(), make_batch(&[fresh.clone()])) {
                     Ok(()) => {
                         for w in worlds.iter_mut() { apply(w, &[fresh.clone()]); }
                         drop(d);
@@ -737,13 +742,13 @@ pub mod faults {
                         match DB::open(options.clone()) {
                             Ok(d2) => {
                                 if !overflow { check_reads(&d2, &keys2, &worlds, false, "after a further write and a second clean reopen", &mut bad, &mut trace); }
-                                if let Some(msg) = leftovers(&d2, &raw_fs, options.db_path()) { bad.push(msg); }
+                                if dircheck { if let Some(msg) = leftovers(&d2, &raw_fs, options.db_path()) { bad.push(msg); } }
                             }
                             Err(e) => bad.push(format!("after a further write the recovered database does not open again (`{}`)", e)),
                         }
                     }
                     Err(e) => bad.push(format!("the recovered database (no fault active) rejects a further write: `{}`", e)),
-                }
+                } }
             }
             Err(e) => { if acked > 0 { bad.push(format!("after the fault is gone the database does not open (`{}`) although {} writes were acknowledged", e, acked)); } }
         }
